@@ -2,7 +2,7 @@
    ast.TarsFile) and the per-case check evaluated by the driver. *)
 From Coq Require Import String.
 From Coq Require Import List NArith ZArith Bool.
-From TarsV Require Import Base.Hex Idl.Lexer Idl.Parser.
+From TarsV Require Import Base.Hex Idl.Lexer Idl.Parser Idl.Include.
 Import ListNotations.
 Open Scope N_scope.
 
@@ -71,4 +71,16 @@ Definition c16_check (c : c16case) : bool :=
 Definition c16_model (input : hexs) : N * bytes :=
   match parse_bytes (unhex input) with
   | OOk m => (0, ser_module m) | OMulti => (1, []) | OErr => (2, []) | OFuel => (3, [])
+  end.
+
+(* several files: the main file and the files beside it *)
+Definition c16fcase := (hexs * list (hexs * hexs) * c16obs)%type.
+Definition c16_check_fs (c : c16fcase) : bool :=
+  let '(input, files, obs) := c in
+  match parse_fs (unhex input) (map (fun p => (unhex (fst p), unhex (snd p))) files), obs with
+  | FOk t, COk h => beq (ser_module (pt_mod t)) (unhex h)
+  | FMulti, (CMulti | CErr) => true
+  | FErr, CErr => true
+  | FFuel, CHang => true
+  | _, _ => false
   end.
